@@ -48,6 +48,9 @@ type VTStruct struct{ A int }
 
 func (v VTStruct) MarshalText() ([]byte, error) { return []byte(fmt.Sprintf("vt<%d>", v.A)), nil }
 func (v *VTStruct) UnmarshalText(b []byte) error {
+	if v == nil {
+		return errors.New("nil receiver")
+	}
 	s := strings.TrimSuffix(strings.TrimPrefix(string(b), "vt<"), ">")
 	n, err := strconv.Atoi(s)
 	v.A = n
